@@ -6,6 +6,7 @@ import (
 	"crypto/cipher"
 	"crypto/ecdsa"
 	"crypto/hmac"
+	"crypto/md5"
 	"crypto/rsa"
 	"crypto/sha1"
 	"crypto/sha256"
@@ -34,6 +35,8 @@ type Profile struct {
 	MAC     func() hash.Hash
 	MacLen  int
 	HasSKE  bool
+	// ImplicitIV: CBC records carry no explicit IV; each record is chained to the previous one (TLS 1.0)
+	ImplicitIV bool
 	// key exchange and client authentication
 	BuildCKX func(p *Peer, pms []byte) []byte           // ClientKeyExchange body for the server in p.PeerCerts
 	OpenCKX  func(p *Peer, body []byte) ([]byte, error) // pre-master secret (nil, nil when the peer holds no key)
@@ -232,4 +235,104 @@ func NewTLS(rw interface {
 // UseTLS switches a peer to the TLS 1.2 RSA profile (call before Run).
 func (p *Peer) UseTLS() {
 	p.Prof, p.Vers, p.Suites = TLS12RSA, TLS12, []uint16{SuiteAESCBC, SuiteAESGCM}
+}
+
+// TLS 1.0 / 1.1 -----------------------------------------------------------------------------------
+
+func pHash(newH func() hash.Hash, secret, seed []byte, n int) []byte {
+	var out []byte
+	mac := func(parts ...[]byte) []byte {
+		h := hmac.New(newH, secret)
+		for _, p := range parts {
+			h.Write(p)
+		}
+		return h.Sum(nil)
+	}
+	a := mac(seed)
+	for len(out) < n {
+		out = append(out, mac(a, seed)...)
+		a = mac(a)
+	}
+	return out[:n]
+}
+
+// prf10 is the TLS 1.0/1.1 PRF: P_MD5(S1, label+seed) XOR P_SHA1(S2, label+seed).
+func prf10(secret []byte, label string, seed []byte, n int) []byte {
+	ls := append([]byte(label), seed...)
+	half := (len(secret) + 1) / 2
+	s1, s2 := secret[:half], secret[len(secret)-half:]
+	a, b := pHash(md5.New, s1, ls, n), pHash(sha1.New, s2, ls, n)
+	for i := range a {
+		a[i] ^= b[i]
+	}
+	return a
+}
+
+func md5sha1(b []byte) []byte {
+	m, s := md5.Sum(b), sha1.Sum(b)
+	return append(m[:], s[:]...)
+}
+
+// legacyTLS builds the RSA-key-exchange profile of TLS 1.0 (0x0301) or TLS 1.1 (0x0302) with
+// TLS_RSA_WITH_AES_128_CBC_SHA.
+func legacyTLS(version uint16) *Profile {
+	pr := *TLS12RSA
+	pr.Name = map[uint16]string{0x0301: "TLS1.0-RSA", 0x0302: "TLS1.1-RSA"}[version]
+	pr.Version = version
+	pr.Suites = []uint16{SuiteAESCBC}
+	pr.GCM = func(uint16) bool { return false }
+	pr.PRF = prf10
+	pr.Hash = md5sha1
+	pr.ImplicitIV = version == 0x0301
+	pr.SignCV = func(p *Peer) []byte {
+		var sig []byte
+		switch k := p.ID.TLSKey.(type) {
+		case *ecdsa.PrivateKey:
+			d := sha1.Sum(p.Transcript)
+			sig, _ = ecdsa.SignASN1(p.Rand, k, d[:])
+		case *rsa.PrivateKey:
+			sig, _ = rsa.SignPKCS1v15(nil, k, crypto.MD5SHA1, md5sha1(p.Transcript))
+		}
+		return SKEBody(sig)
+	}
+	pr.CheckCV = func(p *Peer, body []byte) {
+		if len(body) < 2 {
+			return
+		}
+		c, err := x509.ParseCertificate(p.PeerCerts[0])
+		if err != nil {
+			return
+		}
+		sig := body[2:]
+		ok := int(body[0])<<8|int(body[1]) == len(sig)
+		switch k := c.PublicKey.(type) {
+		case *ecdsa.PublicKey:
+			d := sha1.Sum(p.Transcript)
+			ok = ok && ecdsa.VerifyASN1(k, d[:], sig)
+		case *rsa.PublicKey:
+			ok = ok && rsa.VerifyPKCS1v15(k, crypto.MD5SHA1, md5sha1(p.Transcript), sig) == nil
+		default:
+			return
+		}
+		p.Checks["certverify-signature"] = ok
+	}
+	pr.CertReq = func(p *Peer) []byte { return CertRequestBody([]byte{1, 64}, p.CAs) }
+	return &pr
+}
+
+// TLS10RSA and TLS11RSA are the legacy profiles.
+var TLS10RSA, TLS11RSA = legacyTLS(0x0301), legacyTLS(0x0302)
+
+// UseTLSVersion switches a peer to the RSA-key-exchange profile of the given TLS version.
+func (p *Peer) UseTLSVersion(v uint16) {
+	switch v {
+	case 0x0301:
+		p.Prof = TLS10RSA
+	case 0x0302:
+		p.Prof = TLS11RSA
+	default:
+		p.UseTLS()
+		return
+	}
+	p.Vers, p.Suites = v, []uint16{SuiteAESCBC}
 }
